@@ -143,10 +143,16 @@ func runC05(e *core.Env, n int) {
 	defer inp.Close()
 	defer htt.Close()
 	carriers := []*Carrier{inp, htt}
+	// a third carrier for the programs: HTTP with bodies that arrive three bytes per read (re-chunking proxy)
+	pcs := NewHTTPServer(&Service{}, carrierOpt{}).InPieces(3)
+	defer pcs.Close()
+	c05ExtraTransports = []*http.Transport{pcs.Transport}
+	defer func() { c05ExtraTransports = nil }()
+	progCarriers := []*Carrier{inp, htt, inp, htt, pcs}
 	batch := 0
 	var pending []*Run
 	e.Cases("program", n, func(i int, r *rand.Rand) {
-		c := carriers[i%2]
+		c := progCarriers[i%len(progCarriers)]
 		kind := pick(r, ClientStream, ServerStream, Bidi, Bidi)
 		sc := genLivenessScript(r, kind, c.HTTP)
 		e.Note("%s %s", c.Name, sc.Shape())
@@ -265,6 +271,28 @@ func runC05(e *core.Env, n int) {
 				}
 			}
 			e.Count("recv_after_end_judged", 1)
+		}
+		// (iii-c) over HTTP, for handlers that consumed their whole request stream and with the context alive
+		// throughout: what a receive yields at the end is the final status (io.EOF or a status error), not a raw
+		// transport or framing error in its place
+		if c.HTTP && tCancel < 0 && !endedBeforePost && run.Ctx.Err() == nil {
+			consumed := false
+			for _, o := range sc.Handler {
+				if o.Op == "recvall" {
+					consumed = true
+				}
+			}
+			if _, hret := run.HandlerReturn(); consumed && hret {
+				for _, ev := range append(run.Events(), post...) {
+					if (ev.Who != "cr" && ev.Who != "post") || ev.Op != "recv" || ev.Call || ev.Pan != "" || ev.Err == nil || ev.Err == io.EOF {
+						continue
+					}
+					if _, isStatus := status.FromError(ev.Err); !isStatus {
+						e.Violate(sig+"/recv-final-status-replaced", fmt.Sprintf("the handler had consumed its requests and returned; a receive yielded %v (%T) where the delivered messages or the final status belong", ev.Err, ev.Err), w(""))
+						break
+					}
+				}
+			}
 		}
 		// delivery and status still hold for these programs where no cancellation was involved
 		if tCancel < 0 && c.Inproc {
@@ -721,11 +749,17 @@ var _ = status.Code
 var _ grpc.ServerStream
 var _ context.Context
 
+// c05ExtraTransports: transports of further carriers whose idle connections are closed before counting.
+var c05ExtraTransports []*http.Transport
+
 // checkConnLeaks: once every call has completed, no client connection may still be checked out of the
 // transport (a reply body that was never closed pins its connection and the two goroutines serving it,
 // none of which has a library frame). Idle connections are closed first; what remains is in use.
 func checkConnLeaks(e *core.Env, tr *http.Transport, when string) {
 	tr.CloseIdleConnections()
+	for _, t := range c05ExtraTransports {
+		t.CloseIdleConnections()
+	}
 	n, lastN, same := 0, -1, 0
 	for i := 0; i < 600; i++ {
 		dump := allStacks()
@@ -745,6 +779,9 @@ func checkConnLeaks(e *core.Env, tr *http.Transport, when string) {
 			return
 		}
 		tr.CloseIdleConnections()
+		for _, t := range c05ExtraTransports {
+			t.CloseIdleConnections()
+		}
 		time.Sleep(100 * time.Millisecond)
 	}
 	e.Inconclusive("C05 connection check %s: connection goroutines kept changing for 60 s", when)
